@@ -26,7 +26,7 @@ class C09(Prop):
             'tags() before and inside tests, time() before startTest and before the outcome or never; startTestRun explicit or implied. '
             'thorough adds all payloads with <= 2 details x <= 3 chunks over a 2-chunk alphabet for 3 outcome kinds. '
             'non-trivial = at least one test with a multi-chunk or empty detail, or >= 2 tests; distinct = distinct input S-expression')
-    assumptions = ['translator tie (harness/pystream.py): _convert and ExtendedToStreamDecorator.startTestRun are matched statement by statement on every run (each self.status(...) call with exactly its keyword set); trusted: the translator and the reading of the loops over iter_bytes()/details.items() by TTV/Model/ConvertSrc.lean; the content-type functions (_quote, _make_content_type) are not translated (C16)',
+    assumptions = ['translator tie (harness/pystream.py): _convert and ExtendedToStreamDecorator.startTestRun are matched statement by statement on every run (each self.status(...) call with exactly its keyword set); trusted: the translator and the reading of the loops over iter_bytes()/details.items() by TTV/Model/ConvertSrc.lean; the content-type functions (_quote, _make_content_type) are not translated (C16); trusted normalisations before matching: alpha-renaming of the locals (recognised by what is bound to them), spellings of None tests, `for k in details: v = details[k]` = items(), the two pure bindings at the head of the details loop and the run of attribute resets in startTestRun in any order, `x = self.current_tags` right before its only use, utf8 = utf-8 - the order of every call (test.id(), self._now(), startTestRun, self.status) is asserted as written',
                    'content types are opaque tokens compared for equality: the render (repr(ContentType)) / parse (_make_content_type) round trip is C16\'s (another family)',
                    'text-typed details carry bytes valid in their charset and a detail named "reason" is text-typed (ExtendedToStreamDecorator is itself a StreamSummary and formats them; noted in DESIGN section 0)',
                    'an exc_info is (ValueError, ValueError("boom"), None): TracebackContent yields one chunk, canonicalised to the token bytes "TB"; traceback formatting is not modelled',
